@@ -44,6 +44,7 @@
 #![allow(clippy::option_if_let_else)]
 #![warn(clippy::redundant_feature_names)]
 #![cfg_attr(coverage_nightly, feature(coverage_attribute))]
+#![cfg_attr(feature = "verif", allow(missing_docs))]
 
 #[doc(hidden)]
 pub type HashMap<K, V> = std::collections::HashMap<K, V, rustc_hash::FxBuildHasher>;
@@ -146,6 +147,10 @@ mod value;
 mod value_type;
 mod version;
 mod vlog;
+
+#[cfg(feature = "verif")]
+#[doc(hidden)]
+pub mod verif;
 
 /// User defined key (byte array)
 pub type UserKey = Slice;
